@@ -52,9 +52,47 @@ func (c *ctlContext) filter(m *ctlMeta) *ctlFilter {
 	return f
 }
 
+// ---- cacheinputs: a per-loop cache keyed by the storage location although
+// the value also depends on the record's kind.
+func ctlCacheInputs(data []byte, n int) []string {
+	type loc struct{ off, length int }
+	seen := make(map[loc]string)
+	var out []string
+	for i := 0; i < n; i++ {
+		kind := data[4*i]
+		off := int(data[4*i+1])
+		length := int(data[4*i+2])
+		k := loc{off, length}
+		val, ok := seen[k]
+		if !ok {
+			if kind == 1 {
+				val = string(data[off : off+length])
+			} else {
+				val = "?"
+			}
+			seen[k] = val
+		}
+		out = append(out, val)
+	}
+	return out
+}
+
+// ---- worklist: a range loop appends to the slice it ranges over.
+type ctlClosure struct {
+	items []int
+}
+
+func (c *ctlClosure) close(next func(int) []int) {
+	for _, x := range c.items {
+		c.items = append(c.items, next(x)...)
+	}
+}
+
 // CtlUse keeps the unexported examples reachable for the analyser.
 func CtlUse(m *ctlMeta, xs []int, data []byte) (*ctlFilter, []int, []byte) {
 	c := &ctlContext{}
 	a, _ := ctlSliceAlias(xs, 3)
+	_ = ctlCacheInputs(data, 1)
+	(&ctlClosure{}).close(func(int) []int { return nil })
 	return c.filter(m), a, ctlNarrowArith(2, 3, data)
 }
